@@ -409,6 +409,44 @@ def clusterRun (x : Ext) (pk : List String) (parts : List (List PRow)) : QTree â
         olo q.olo (parts.flatMap (fun p => runTree x (withOlo (.sub q inner) (partOlo q.olo)) s p))
       else run x q (inner.outSrc s) (toPRows (clusterRun x pk parts inner s))
 
+/-! ## IN-subqueries (planner/subquery.go) -/
+
+/-- core.PointsField -/
+def pointsField : String Ã— Ex := ("_points", .agg .sum (.field "_point"))
+
+/-- `fixupSubQuery`: a statement planned with `Opts.IsSubQuery` selects `_points` (and
+    `_having`, which `bfields` adds) instead of its own fields -/
+def asSubQ (q : Query) : Query := { q with fields := [pointsField] }
+
+/-- `Opts.IsSubQuery` is handed down to the FROM-subqueries of the sub-query -/
+def asSub : QTree â†’ QTree
+  | .table q => .table (asSubQ q)
+  | .sub q inner => .sub (asSubQ q) (asSub inner)
+
+/-- `planSubQueries`: the distinct values of the sub-query's dimension over its result rows
+    (`uniques[row.Key.Get(sq.Dim)] = true`; a missing dimension contributes nil) -/
+def inList (dim : String) (rows : List FlatRow) : List (Option DimVal) :=
+  dedup (rows.map (fun r => List.lookup dim r.key))
+
+/-- the IN list as the local plan computes it -/
+def inListLocal (x : Ext) (t : QTree) (s : Src) (dim : String) (rows : List PRow) :
+    List (Option DimVal) := inList dim (runTree x (asSub t) s rows)
+
+/-- the IN list as the leader of a cluster computes it: the sub-query is planned for the
+    cluster like any statement (`Plan(sq.SQL, sqOpts)` with `QueryCluster` still set) -/
+def inListCluster (x : Ext) (pk : List String) (parts : List (List PRow)) (t : QTree) (s : Src)
+    (dim : String) : List (Option DimVal) := inList dim (clusterRun x pk parts (asSub t) s)
+
+/-- goexpr `In(Param(dim), subQuery)` once the result is set: the WHERE function of the
+    enclosing statement -/
+def whereIn (dim : String) (vals : List (Option DimVal)) (k : DKey) : Bool :=
+  vals.contains (k.get dim)
+
+/-- what a plan that hands the sub-query to the partitions whole would compute, allowed or
+    not (the regression "an IN-subquery can always be pushed down") -/
+def forcedPushdown (x : Ext) (parts : List (List PRow)) (t : QTree) (s : Src) : List FlatRow :=
+  olo t.top.olo (parts.flatMap (fun p => runTree x (withOlo t (partOlo t.top.olo)) s p))
+
 /-! ## the textual view -/
 
 /-- the clauses of a SELECT as sqlparser renders them (`(*Select).Format`) -/
